@@ -31,12 +31,10 @@ def _dump(node, fieldidx):
     return {"k": "other:" + type(node).__name__, "i": 0, "args": []}
 
 
-def drive_case(case):
+def _parse(names, text):
     from sigma.rule import SigmaRule
     from sigma.exceptions import SigmaError
 
-    names = [uncps(n) for n in case["names"]]
-    text = uncps(case["text"])
     det = {n: {f"F{i + 1}": "v"} for i, n in enumerate(names)}
     det["condition"] = text
     fieldidx = {f"F{i + 1}": i + 1 for i in range(len(names))}
@@ -50,7 +48,22 @@ def drive_case(case):
     except Exception as e:
         ret["exc"] = type(e).__name__
         ret["sigma"] = isinstance(e, SigmaError)
-    return {"id": case["id"], "names": case["names"], "text": case["text"], "ret": ret}
+    return ret
+
+
+SECOND = 10_000_000  # id offset of the second observation of a case
+
+
+def drive_case(case):
+    """Two observations per case, made one after the other in the same process: the text parsed for
+    the detections in the given order, then THE SAME TEXT for a second rule whose detections are
+    the same names in reverse order (so every name stands for another detection content)."""
+    names = [uncps(n) for n in case["names"]]
+    text = uncps(case["text"])
+    first = {"id": case["id"], "names": case["names"], "text": case["text"], "ret": _parse(names, text)}
+    rev = list(reversed(case["names"]))
+    second = {"id": case["id"] + SECOND, "names": rev, "text": case["text"], "ret": _parse(list(reversed(names)), text)}
+    return {"id": case["id"], "both": [first, second]}
 
 
 def run(tier: str, seed: int) -> int:
@@ -58,10 +71,12 @@ def run(tier: str, seed: int) -> int:
     chk.model_check("MC_Text")
     chk.model_check("MC_CondLang", "MC_CondLang.cfg" if tier == "quick" else "MC_CondLang_thorough.cfg")
     cases = chk.generate("Gen_C02", shards=[1, 2, 3, 4, 5, 6])
-    obs = drive("harness.props.c02", "drive_case", cases)
+    obs = [o for pair in drive("harness.props.c02", "drive_case", cases) for o in pair["both"]]
     verdicts = chk.judge("Judge_C02", obs)
     by_id = {o["id"]: {"names": [uncps(n) for n in o["names"]], "text": uncps(o["text"]), "ret": o["ret"]} for o in obs}
-    chk.absorb(verdicts, by_id, {c["id"]: c for c in cases})
+    raw = {c["id"]: c for c in cases}
+    raw.update({c["id"] + SECOND: c for c in cases})
+    chk.absorb(verdicts, by_id, raw)
     texts = {(tuple(map(tuple, c["names"])), tuple(c["text"])) for c in cases}
     nontrivial = sum(1 for (_, t) in texts if t.count(32) + t.count(40) >= 2)
     samples = [by_id[o["id"]] for o in obs[:: max(1, len(obs) // 5)]][:5]
@@ -72,7 +87,8 @@ def run(tier: str, seed: int) -> int:
         "selector (3 quantifiers x patterns) of 6 detection-name families, all ASTs with <=2 operators "
         "(thorough: <=3 for two families) over a reduced leaf set, plus seeded random ASTs with 3..6 operators, "
         "each printed in up to 4 styles; distinct = distinct (names, text); non-trivial = text with at least "
-        "one operator, selector or parenthesis; every case is judged over all 2^n assignments",
+        "one operator, selector or parenthesis; every text is parsed twice in the same process, for the detections in the "
+        "given and in reverse order (a second rule with the same condition text); every observation is judged over all 2^n assignments",
         samples=samples,
         traces=len(obs),
         exhaustive=False,
